@@ -31,9 +31,16 @@ def gen(rng, ctx):
     ng = rng.randint(2, 9 if not big else 14)
     if op == "limit_fanin":
         t = rng.choice(G.GATESN)
-        cd = G.rand_circuit(rng, ni, ng, max_fanin=7, p_wide=0.45, force=(t, rng.randint(3, 7)))
+        cd = G.rand_circuit(rng, ni, ng, max_fanin=7, p_wide=0.45, force=(t, rng.randint(3, 7)), allow_x=rng.random() < 0.3)
     elif op == "limit_fanout":
-        cd = G.rand_circuit(rng, ni, ng + 3, max_fanin=4, shape=rng.choice(["wide", "wide", "random"]))
+        cd = G.rand_circuit(rng, ni, ng + 3, max_fanin=4, shape=rng.choice(["wide", "wide", "random"]), allow_x=rng.random() < 0.3)
+        if rng.random() < 0.12:
+            # an unknown-value tie-off with many loads (an `x` node is an opaque source: every load must keep seeing it)
+            multi = [n for n, t, _ in cd["nodes"] if t in G.GATESN]
+            if len(multi) >= 3:
+                cd["nodes"].append(["kx", "x", False])
+                for m in rng.sample(multi, rng.randint(3, min(6, len(multi)))):
+                    cd["edges"].append(["kx", m])
     else:
         cd = G.rand_circuit(rng, ni, ng, max_fanin=4, shape=rng.choice(["chain", "random", "tree", "diamond"]), p_input_output=0.0 if op == "acyclic_unroll" and rng.random() < 0.7 else 0.1)
     kind = "plain"
@@ -115,7 +122,9 @@ def check(case, ctx):
     ctx.count(f"class:{case['kind']}")
     G.gate_arity_table(cd, ctx.table)
     nodes = before.nodes()
-    free = before.free()
+    free = before.free() + [n for n, t in before.types.items() if t == "x"]  # `x` constants are opaque sources
+    if before.has_x():
+        ctx.count("with_x_constant")
     if len(free) > 14:
         ctx.count("skipped:too_many_free")
         return
@@ -288,7 +297,7 @@ def gates(counters, table, tier):
         n = counters.get(f"regrouped:{t}:odd", 0) + counters.get(f"regrouped:{t}:even", 0)
         if n < 20:
             out.append(f"{t} regrouped only {n} times")
-    for k in ("regrouped:xor:odd", "regrouped:xor:even", "regrouped:xnor:odd", "regrouped:xnor:even", "fanout_split", "registers_inserted", "insert_registers_custom_flop", "insert_registers_clock_is_existing_gate", "cmp:acyclic_unroll", "class:pins"):
+    for k in ("regrouped:xor:odd", "regrouped:xor:even", "regrouped:xnor:odd", "regrouped:xnor:even", "fanout_split", "registers_inserted", "insert_registers_custom_flop", "insert_registers_clock_is_existing_gate", "cmp:acyclic_unroll", "class:pins", "with_x_constant"):
         if counters.get(k, 0) < 5:
             out.append(f"{k} seen {counters.get(k, 0)} times")
     return out
